@@ -23,6 +23,24 @@ def run(task):
     graph = gg.GrammarGraph.from_grammar(g)
     trees = [pj.json_to_tree(t, DerivationTree, eps_fuzzer_shape=task.get("eps_fuzzer_shape", False)) for t in task["trees"]]
     out = []
+    pre = task.get("prelude")
+    if pre:
+        # history: the same texts were used with a sibling grammar (same nonterminal names, other productions)
+        # earlier in this interpreter; nothing of that is judged
+        from isla.parser import EarleyParser
+        pg = pj.json_to_grammar(pre["g"])
+        try:
+            ptree = DerivationTree.from_parse_tree(next(EarleyParser(pg).parse(pre["input"])))
+        except Exception:
+            ptree = None
+        for f in task["formulas"]:
+            try:
+                pf = parse_isla(f["text"], pg, STANDARD_STRUCTURAL_PREDICATES, STANDARD_SEMANTIC_PREDICATES)
+                if ptree is not None:
+                    evaluate(pf, ptree, pg)
+                    evaluate(pf, DerivationTree("<start>", None), pg)
+            except Exception:
+                pass
     for f in task["formulas"]:
         row = []
         try:
@@ -41,12 +59,13 @@ def run(task):
                 if isinstance(ex, (KeyboardInterrupt, SystemExit)):
                     raise
                 serr = exc(ex) + "@solver"
-        for t in trees:
+        for k, t in enumerate(trees):
             if perr:
                 row.append({"e": perr, "c": "NA"})
                 continue
             try:
-                e = tv(evaluate(formula, t, g, graph=graph))
+                # every other call leaves the construction of the grammar graph to evaluate() itself
+                e = tv(evaluate(formula, t, g, graph=graph) if k % 2 == 0 else evaluate(formula, t, g))
             except BaseException as ex:
                 if isinstance(ex, (KeyboardInterrupt, SystemExit)):
                     raise
